@@ -26,15 +26,22 @@ func (fold *fold) Exit(node *Node) {
 		newNode.SetType(leafType)
 	}
 
+	// A literal retyped for a function parameter (int8, float64, ...) must not be
+	// folded with int arithmetic.
+	plain := func(n Node) bool {
+		t := n.Type()
+		return t == nil || t.Kind() == reflect.Int
+	}
+
 	switch n := (*node).(type) {
 	case *UnaryNode:
 		switch n.Operator {
 		case "-":
-			if i, ok := n.Node.(*IntegerNode); ok {
+			if i, ok := n.Node.(*IntegerNode); ok && plain(i) {
 				patchWithType(&IntegerNode{Value: -i.Value}, n.Node.Type())
 			}
 		case "+":
-			if i, ok := n.Node.(*IntegerNode); ok {
+			if i, ok := n.Node.(*IntegerNode); ok && plain(i) {
 				patchWithType(&IntegerNode{Value: i.Value}, n.Node.Type())
 			}
 		}
@@ -42,8 +49,8 @@ func (fold *fold) Exit(node *Node) {
 	case *BinaryNode:
 		switch n.Operator {
 		case "+":
-			if a, ok := n.Left.(*IntegerNode); ok {
-				if b, ok := n.Right.(*IntegerNode); ok {
+			if a, ok := n.Left.(*IntegerNode); ok && plain(a) {
+				if b, ok := n.Right.(*IntegerNode); ok && plain(b) {
 					patchWithType(&IntegerNode{Value: a.Value + b.Value}, a.Type())
 				}
 			}
@@ -53,20 +60,20 @@ func (fold *fold) Exit(node *Node) {
 				}
 			}
 		case "-":
-			if a, ok := n.Left.(*IntegerNode); ok {
-				if b, ok := n.Right.(*IntegerNode); ok {
+			if a, ok := n.Left.(*IntegerNode); ok && plain(a) {
+				if b, ok := n.Right.(*IntegerNode); ok && plain(b) {
 					patchWithType(&IntegerNode{Value: a.Value - b.Value}, a.Type())
 				}
 			}
 		case "*":
-			if a, ok := n.Left.(*IntegerNode); ok {
-				if b, ok := n.Right.(*IntegerNode); ok {
+			if a, ok := n.Left.(*IntegerNode); ok && plain(a) {
+				if b, ok := n.Right.(*IntegerNode); ok && plain(b) {
 					patchWithType(&IntegerNode{Value: a.Value * b.Value}, a.Type())
 				}
 			}
 		case "/":
-			if a, ok := n.Left.(*IntegerNode); ok {
-				if b, ok := n.Right.(*IntegerNode); ok {
+			if a, ok := n.Left.(*IntegerNode); ok && plain(a) {
+				if b, ok := n.Right.(*IntegerNode); ok && plain(b) {
 					if b.Value == 0 {
 						fold.err = &file.Error{
 							Location: (*node).Location(),
